@@ -160,6 +160,21 @@ public:
     void rotate_nonce() {
         if (ct_.empty()) return;
 
+        // Never re-tag a representation that does not verify (e.g. one left half-rotated
+        // by an earlier rotation that failed): that would turn corruption into valid data.
+        {
+            uint8_t expected[32];
+            HmacContext ctx(hmac_cpp::TypeHash::SHA256);
+            auto& pk0 = process_key();
+            ctx.init(pk0.data(), pk0.size());
+            ctx.update(nonce_.data(), nonce_.size());
+            ctx.update(ct_.data(), ct_.size());
+            ctx.final(expected, sizeof expected);
+            const bool ok = std::equal(tag_.begin(), tag_.end(), expected);
+            secure_zero(expected, sizeof expected);
+            if (!ok) throw std::runtime_error("secret_string::rotate_nonce: integrity check failed");
+        }
+
         std::array<uint8_t,12> new_nonce{};
         {
             auto rnd = hmac_cpp::random_bytes(new_nonce.size());
